@@ -104,7 +104,11 @@ class OTAFirmware:
 
     def respond_fw(self, msg):
         """Respond to a firmware request."""
-        req_fw_type, req_fw_ver, req_blk = fw_hex_to_int(msg.payload, 3)
+        try:
+            req_fw_type, req_fw_ver, req_blk = fw_hex_to_int(msg.payload, 3)
+        except (binascii.Error, struct.error, ValueError):
+            _LOGGER.warning("Not a valid firmware request: %s", msg.payload)
+            return None
         _LOGGER.debug(
             "Received firmware request with firmware type %s, "
             "firmware version %s, block index %s",
@@ -129,9 +133,17 @@ class OTAFirmware:
 
     def respond_fw_config(self, msg):
         """Respond to a firmware config request."""
-        (req_fw_type, req_fw_ver, req_blocks, req_crc, bloader_ver) = fw_hex_to_int(
-            msg.payload, 5
-        )
+        try:
+            (
+                req_fw_type,
+                req_fw_ver,
+                req_blocks,
+                req_crc,
+                bloader_ver,
+            ) = fw_hex_to_int(msg.payload, 5)
+        except (binascii.Error, struct.error, ValueError):
+            _LOGGER.warning("Not a valid firmware config request: %s", msg.payload)
+            return None
         _LOGGER.debug(
             "Received firmware config request with firmware type %s, "
             "firmware version %s, %s blocks, CRC %s, bootloader %s",
